@@ -9,6 +9,11 @@ kinds: ws nl cmt dcmt str chr ext word num sym pre
 """
 
 _WORD = set("abcdefghijklmnopqrstuvwxyzABCDEFGHIJKLMNOPQRSTUVWXYZ0123456789_.#")
+RESERVED = set("""abs access after alias all and architecture array assert assume assume_guarantee attribute begin block body buffer bus case component
+configuration constant context cover default disconnect downto else elsif end entity exit fairness file for force function generate generic group guarded if impure in inertial
+inout is label library linkage literal loop map mod nand new next nor not null of on open or others out package parameter port postponed procedure process property protected
+pure range record register reject release rem report restrict restrict_guarantee return rol ror select sequence severity shared signal sla sll sra srl strong subtype then to
+transport type unaffected units until use variable vmode vprop vunit wait when while with xnor xor""".split())
 _TWO = {"=>", "**", ":=", "/=", ">=", "<=", "<>", "??", "?=", "?<", "?>", "<<", ">>"}
 _THREE = {"?/=", "?<=", "?>="}
 
@@ -37,7 +42,7 @@ def lex(text):
             out.append(("ws", text[i:j]))
             i = j
             continue
-        if c == "`" and line_start:
+        if c in "`#" and line_start:      # a preprocessor line (VSG: first non-blank character is '#'); also the VHDL-2019 tool directive
             j = text.find("\n", i)
             j = n if j < 0 else j
             out.append(("pre", text[i:j]))
@@ -77,7 +82,9 @@ def lex(text):
             j = min(n, j + 1)
             tok = ("ext", text[i:j])
         elif c == "'":
-            is_attr = prev is not None and (prev[0] in ("word", "ext", "str", "chr") or prev[1] in (")", "]", "all"))
+            # a tick after a name, a literal or a closing bracket is the attribute / qualified-expression tick; after a reserved
+            # word (range 'a' to 'z', else 'Z', when '1' ...) or an operator it opens a character literal
+            is_attr = prev is not None and ((prev[0] == "word" and (prev[1].lower() not in RESERVED or prev[1].lower() == "all")) or prev[0] in ("ext", "str", "chr", "bits") or prev[1] in (")", "]"))
             if not is_attr and i + 2 < n and text[i + 2] == "'":
                 tok = ("chr", text[i : i + 3])
                 j = i + 3
